@@ -5,13 +5,13 @@ import "verif/internal/core"
 func init() {
 	Properties["C19"] = &PropertySpec{
 		Modules:     []string{"storage"},
-		Rules:       []Rule{R01(nil, nil), R04(), R11(), R13(1, core.PkgGcsemu, core.PkgGcsutil), R14(20, core.PkgGcsemu, core.PkgGcsutil), R15(), R16(5, core.PkgGcsemu, core.PkgGcsutil)},
+		Rules:       []Rule{R01(nil), R04(), R11(), R13(1, core.PkgGcsemu, core.PkgGcsutil), R14(20, core.PkgGcsemu, core.PkgGcsutil), R15(), R16(5, core.PkgGcsemu, core.PkgGcsutil), R20()},
 		Explanation: "wip",
 		Assumptions: commonAssumptions,
 	}
 	Properties["C06"] = &PropertySpec{
 		Modules:     []string{"bigtable"},
-		Rules:       []Rule{R01(nil, nil), R04(), R02R03(), R06(), R07(), R09(), R13(4, core.PkgBttest), R14(3, core.PkgBttest), R16(5, core.PkgBttest)},
+		Rules:       []Rule{R01(nil), R04(), R02R03(), R06(), R07(), R09(), R13(4, core.PkgBttest), R14(3, core.PkgBttest), R16(5, core.PkgBttest)},
 		Explanation: "wip",
 		Assumptions: commonAssumptions,
 	}
